@@ -1,5 +1,6 @@
 import Cell2v.Driver.Util
 import Cell2v.Spec.C18
+import Cell2v.Model.CenterRemote
 /-!
 Model driver for C18.  `modeld_c18 model`: one op line in, one observation out (the format of
 `harness/c18/c18_test.go`).  `modeld_c18 spec`: lines `op\tobs` in, `ok` or
@@ -72,8 +73,10 @@ def insertStr (x : String) : List String → List String
 
 def sortStrs (xs : List String) : List String := xs.foldr insertStr []
 
-def showOut (u : Nat) (o : Out) : String :=
-  let ret := match o.ret with | some true => "t" | some false => "f" | none => "-"
+/-- `ret` is what the caller of the centre's remote API received (`Model/CenterRemote.lean`): the harness sends
+every operation as a request to `centerremote.*` and shows the `NormalAck` code that came back -/
+def showOut (op : Op) (u : Nat) (o : Out) : String :=
+  let ret := (Remote.reply op o).render op
   let acks := o.evs.filterMap fun e => match e with
     | .ack id n c => some s!"{u}.{id}:{n}:{codeName c}" | _ => none
   let kicks := sortStrs (o.evs.filterMap fun e => match e with
@@ -178,17 +181,17 @@ def step (d : DState) (line : String) : DState × String :=
       else
         let r := Cell2v.Center.step s o
         let d' := { d with s := r.1 }
-        (d', showOut 0 r.2 ++ snapshot d')
+        (d', showOut o 0 r.2 ++ snapshot d')
     | .offReply u _ =>
       if (s.accts u).pend.isEmpty then (d, "none")
       else
         let r := Cell2v.Center.step s o
         let d' := { d with s := r.1, unanswered := track d o s r.2 }
-        (d', showOut u r.2 ++ snapshot d')
+        (d', showOut o u r.2 ++ snapshot d')
     | _ =>
       let r := Cell2v.Center.step s o
       let d' := { d with s := r.1, unanswered := track d o s r.2 }
-      (d', showOut (o.uid.getD 0) r.2 ++ snapshot d')
+      (d', showOut o (o.uid.getD 0) r.2 ++ snapshot d')
 
 /-! ### spec mode -/
 
@@ -244,7 +247,14 @@ def specLine (m : Spec.Mon) (line : String) : Spec.Mon × String :=
           else
             let out : Out := { ret := parseRet ows, evs := acks.map (·.2) }
             let r := Spec.monStep m ⟨o, out⟩
-            match r.2 with
+            -- a request of the remote API must come back granted or refused, a notification acknowledged:
+            -- anything else (no answer, an error, an unknown code, two answers) is not a refusal the caller can read
+            let answered := match kv ows "ret" with
+              | some "t" | some "f" => Remote.Op.isRequest o
+              | some "-" => !Remote.Op.isRequest o
+              | _ => false
+            if !answered then (r.1, s!"VIOLATION C18/request-answer at t={m.now} {opl} got {(obs.splitOn " |").headD ""}")
+            else match r.2 with
             | [] => (r.1, "ok")
             | v :: _ => (r.1, s!"VIOLATION {v.signature} at t={m.now} {opl} got {(obs.splitOn " |").headD ""}")
   | _ => (m, "bad-line")
